@@ -220,3 +220,14 @@ def replay_history(rig, history):
         for k, m in rig.step(req):
             msgs.append("%s[request %d of %d] %s" % ("" if i == len(history) - 1 else "(earlier) ", i + 1, len(history), m))
     return msgs
+
+
+def seat_check(rig, case):
+    """for violations raised while re-establishing a state: after the recorded history the store must equal that state"""
+    if not case.get("seat_check"):
+        return []
+    want = tuple((n, tuple(v)) for n, v in case["state"])
+    got = rig.state()
+    if got != want:
+        return ["after the recorded history the store is %r, the state being re-established by whole-tag writes was %r" % (got, want)]
+    return []
